@@ -243,6 +243,28 @@ def run(ctx):
     SSL_ = "sender::sender::SenderSessionList"
     adv = set(a["bb"] for a in field_accesses(prog, SSL_, "index", funcs=[rq]) if a["kind"] == "assign" and
               a["value"][0] == "bin" and a["value"][1].startswith("Add") and show(a["value"][3]) == "1")
+    # the same advance written through a reference to the cursor (`let SenderSessionList { index: cursor, .. } = sessions; *cursor = if
+    # next == len { 0 } else { next }` with `next = *cursor + 1`): a store through a local that borrows `.index`, whose value is `cursor + 1`
+    # on one arm and a constant (the wrap to 0) on the others
+    rsl = Slicer(rq.body)
+    refs_ = set(nm for nm, ds_ in rsl.var_defs().items() if any(pj_ == "" and d_[0] == "ref" and show(d_[1]).endswith(".index") for (pj_, d_, _b) in ds_))
+    for blk in rq.body.blocks:
+        if blk.cleanup:
+            continue
+        for st in blk.stmts:
+            if st.k == "assign" and st.lhs[1] == (("*",),) and rq.body.names.get(st.lhs[0]) in refs_:
+                nm_ = rq.body.names[st.lhs[0]]
+                v_ = rsl.x.rvalue(st.rv, rsl.x.depth)
+                vals = [v_]
+                if v_[0] == "tmp":
+                    vals = [rsl.x.def_expr((db_, di_), rsl.x.depth) for (db_, di_, dk_) in rq.body.defs().get(v_[1], []) if dk_ in ("whole", "call")]
+                elif v_[0] == "var" and not v_[2]:
+                    vals = [d_ for (pj_, d_, _b) in rsl.var_defs().get(v_[1], []) if pj_ == ""]
+                exs = [rsl.expand(z_) for z_ in vals]
+                plus1 = [z_ for z_ in exs if z_[0] == "bin" and z_[1].startswith("Add") and show(z_[3]) == "1" and re.search(r"\b%s\b|\.index\b" % re.escape(nm_), show(z_[2]))]
+                rest = [z_ for z_ in exs if z_ not in plus1]
+                if plus1 and all(z_[0] == "const" for z_ in rest):
+                    adv.add(blk.i)
     somes = [bb for bb, e in ret_assign_blocks(rq.body, lambda e: not is_variant(e, "None"))]
     key = "read_priority_queue: cursor advances before a packet is returned"
     if not runs or not adv or not somes:
